@@ -316,3 +316,73 @@ Lemma demo_good :
   = TMap TgMeta [(bs "l"%bs, TList [TMap TgDict []]);
                  (bs "q"%bs, TMap TgAttr [(bs "r"%bs, TInt 2); (bs "s"%bs, TMap TgAttr [])])].
 Proof. cbn zeta. split; [vm_compute; reflexivity|]. split; vm_compute; reflexivity. Qed.
+
+(* ---- Mapping equality is equality of finite maps: same key set and equal values; None is a value like any other ---- *)
+Lemma nodupb_NoDup (l : list str) : nodupb l = true -> NoDup l.
+Proof.
+  induction l as [|x r IH]; cbn; intros H; [constructor|]. apply andb_prop in H. destruct H as [H1 H2].
+  constructor; [|auto]. intros X. apply negb_true_iff in H1.
+  assert (existsb (str_eqb x) r = true) as Y by (apply existsb_exists; exists x; split; [exact X|apply str_eqb_refl]). congruence.
+Qed.
+Lemma amem_In {A} k (m : list (str * A)) : amem k m = true <-> In k (map fst m).
+Proof.
+  rewrite amem_inkeys. unfold inkeys. split.
+  - intros H. apply existsb_exists in H. destruct H as (x & Hin & E). apply str_eqb_eq in E. subst. exact Hin.
+  - intros H. apply existsb_exists. exists k. split; [exact H|apply str_eqb_refl].
+Qed.
+Lemma eq_items_spec ka kb : eq_items ka kb = true <->
+  forall k x, In (k, x) ka -> exists y, aget k kb = Some y /\ py_eq x y = true.
+Proof.
+  induction ka as [|[k0 x0] r IH]; cbn.
+  - split; [intros _ k x []|reflexivity].
+  - fold (eq_items r kb). split.
+    + intros H. apply andb_prop in H. destruct H as [H1 H2]. intros k x [E|Hin].
+      * inversion E; subst. destruct (aget k kb) as [y|]; [eauto|discriminate].
+      * apply IH; auto.
+    + intros H. apply andb_true_intro. split.
+      * destruct (H k0 x0 (or_introl eq_refl)) as (y & -> & E). exact E.
+      * apply IH. intros k x Hin. apply H. right. exact Hin.
+Qed.
+Lemma aget_In_nodup {A} k (x : A) m : nodupb (map fst m) = true -> (aget k m = Some x <-> In (k, x) m).
+Proof.
+  induction m as [|[k' v'] r IH]; cbn; intros ND; [split; [discriminate|tauto]|].
+  apply andb_prop in ND. destruct ND as [N1 N2]. destruct (str_eqb k' k) eqn:E.
+  - apply str_eqb_eq in E. subst k'. split.
+    + intros H. inversion H; subst. left. reflexivity.
+    + intros [H|H]; [inversion H; reflexivity|]. exfalso. apply negb_true_iff in N1.
+      assert (existsb (str_eqb k) (map fst r) = true) as Y.
+      { apply existsb_exists. exists k. split; [apply in_map_iff; exists (k, x); auto|apply str_eqb_refl]. }
+      congruence.
+  - rewrite (IH N2). split; [auto|]. intros [H|H]; [|exact H]. inversion H; subst. rewrite str_eqb_refl in E. discriminate.
+Qed.
+
+Theorem py_eq_map_iff g1 g2 ka kb : nodupb (map fst ka) = true -> nodupb (map fst kb) = true ->
+  (py_eq (TMap g1 ka) (TMap g2 kb) = true <->
+   (forall k, amem k ka = amem k kb) /\ (forall k x, aget k ka = Some x -> exists y, aget k kb = Some y /\ py_eq x y = true)).
+Proof.
+  intros NA NB. rewrite py_eq_map. split.
+  - intros H. apply andb_prop in H. destruct H as [HL HI]. apply Nat.eqb_eq in HL. rewrite eq_items_spec in HI.
+    assert (forall k x, aget k ka = Some x -> exists y, aget k kb = Some y /\ py_eq x y = true) as V.
+    { intros k x A. apply HI. apply aget_In_nodup; auto. }
+    split; [|exact V].
+    assert (incl (map fst ka) (map fst kb)) as I1.
+    { intros k Hin. apply amem_In in Hin. unfold amem in Hin. destruct (aget k ka) as [x|] eqn:A; [|discriminate].
+      destruct (V k x A) as (y & B & _). apply amem_In. unfold amem. rewrite B. reflexivity. }
+    assert (incl (map fst kb) (map fst ka)) as I2.
+    { apply NoDup_length_incl; [apply nodupb_NoDup; exact NA| |exact I1]. rewrite !map_length. lia. }
+    intros k. destruct (amem k ka) eqn:A, (amem k kb) eqn:B; auto.
+    + apply amem_In in A. apply I1 in A. apply amem_In in A. congruence.
+    + apply amem_In in B. apply I2 in B. apply amem_In in B. congruence.
+  - intros [K V]. apply andb_true_intro. split.
+    + apply Nat.eqb_eq. rewrite <- (map_length fst ka), <- (map_length fst kb).
+      apply Nat.le_antisymm; apply NoDup_incl_length; try (apply nodupb_NoDup; assumption);
+        intros k Hin; apply amem_In; apply amem_In in Hin; [rewrite <- K|rewrite K]; exact Hin.
+    + apply eq_items_spec. intros k x Hin. apply V. apply aget_In_nodup; auto.
+Qed.
+(* a missing key is NOT a key whose value is None *)
+Lemma none_key_witness :
+  py_eq (TMap TgMeta [(bs "id"%bs, TStr (bs "s1"%bs)); (bs "name"%bs, TNull)])
+        (TMap TgDict [(bs "id"%bs, TStr (bs "s1"%bs)); (bs "gene"%bs, TNull)]) = false /\
+  py_eq (TMap TgAttr [(bs "a"%bs, TNull)]) (TMap TgAttr [(bs "b"%bs, TNull)]) = false /\
+  py_eq (TMap TgAttr [(bs "a"%bs, TNull)]) (TMap TgDict [(bs "a"%bs, TNull)]) = true.
+Proof. vm_compute. repeat split; reflexivity. Qed.
